@@ -112,7 +112,10 @@ func yamlFor(key, val string, quote bool) string {
 	for i, p := range parts {
 		sb.WriteString(strings.Repeat("  ", i) + p + ":")
 		if i == len(parts)-1 {
-			if quote {
+			if quote && strings.ContainsAny(val, "$\\\"") {
+				// YAML single-quoted scalar: everything literal, a quote doubled
+				sb.WriteString(" '" + strings.ReplaceAll(val, "'", "''") + "'\n")
+			} else if quote {
 				sb.WriteString(" \"" + val + "\"\n")
 			} else {
 				sb.WriteString(" " + val + "\n")
@@ -166,7 +169,7 @@ func loadOnce(file string, env map[string]string) (*config.AppConfig, error) {
 func runC20(env core.Env, rep *core.Report) {
 	rep.Rule = "one evaluation = one configuration resolution (one leaf key x one subset of {env, file} x value assignment) through SetDefaults + LoadFlags(-C file) + Load, with every other leaf key observed too, or one database section through Validate; non-trivial = at least one source sets the key / the section is invalid; distinct by (key, sources, values)"
 	ls := leaves()
-	rep.Bound = fmt.Sprintf("[every leaf key of config.AppConfig (%d by reflection) x {none, env, file, env+file, env+file swapped}] [database sections: engine{sqlite,postgres,'',mysql} x sqlite path{'',set} x 2^4 postgres field presence x prepared_db x prepared file{exists,missing,''}]", len(ls))
+	rep.Bound = fmt.Sprintf("[every leaf key of config.AppConfig (%d by reflection) x {none, env, file, env+file, env+file swapped; for free-form string keys also a value full of $, ${..}, %, {{..}}, # and backslashes from the file and from the environment}] [database sections: engine{sqlite,postgres,'',mysql} x sqlite path{'',set} x 2^4 postgres field presence x prepared_db x prepared file{exists,missing,''}]", len(ls))
 	dir := core.Scratch()
 	// run in an empty directory so that no ./config.yaml is picked up
 	_ = os.Chdir(dir)
@@ -197,6 +200,14 @@ func runC20(env core.Env, rep *core.Report) {
 			{"file", "", a, a},
 			{"env+file", a, b, a},
 			{"env+file(swapped)", b, a, b},
+		}
+		if l.Type.Kind() == reflect.String {
+			if _, fixed := domainOf[l.Key]; !fixed {
+				// free-form strings (passwords, tokens, paths): characters that a shell, a template
+				// engine or YAML would treat specially must arrive untouched from either source
+				sp := "S3cr$t-pa$$-${HOME}-$USER %d {{x}} #k \\n"
+				cases = append(cases, cs{"file(special chars)", "", sp, sp}, cs{"env(special chars)", sp, "", sp})
+			}
 		}
 		for _, c := range cases {
 			file := ""
